@@ -194,9 +194,50 @@ def Golay : Codec :=
         pure (s, .ok (.ofNat (Acra.Model.Golay.onesincodeOld c z)))
       | _, _ => Golay7.golayCall s m args }
 
+/-! ### the iteration cursor (`Model.Cursor`): a wrapper that adds `_index` to a container codec.
+  ops: `iter` (a complete `for` loop), `call iter` (`iter(obj)`: `__iter__` alone), `call next` (`obj.next()`);
+  `packIterates`: the class's `pack` loops over `self`, so a successful `pack` leaves the cursor at the end. -/
+open Acra.Model.Cursor in
+def withCursor (c : Codec) (count : c.σ → Nat) (packIterates : Bool) : Codec :=
+  { σ := c.σ × Cursor, name := c.name,
+    fresh := fun o => (c.fresh o).map fun s => (s, none),
+    pack := fun s a =>
+      let p := c.pack s.1 a
+      ((p.1, if packIterates then (match p.2 with | .ok _ => loop (count p.1) | .error _ => s.2) else s.2), p.2),
+    unpack := fun s b a => let p := c.unpack s.1 b a; ((p.1, s.2), p.2),
+    set := fun s f v => (c.set s.1 f v).map fun p => ((p.1, s.2), p.2),
+    obs := fun s => c.obs s.1,
+    eq := fun a b => c.eq a.1 b.1,
+    call := fun s m args =>
+      match m, args with
+      | "iter", [] => some ((s.1, start s.2), .ok .null)
+      | "next", [] =>
+        match next s.2 (count s.1) with
+        | (cur, .ok k) => (c.getitem s.1 (k : Int)).map fun p => ((p.1, cur), p.2)
+        | (cur, .error e) => some ((s.1, cur), .error e)
+      | _, _ => (c.call s.1 m args).map fun p => ((p.1, s.2), p.2),
+    len := fun s => (c.len s.1).map fun p => ((p.1, s.2), p.2),
+    getitem := fun s i => (c.getitem s.1 i).map fun p => ((p.1, s.2), p.2),
+    iter := fun s => (s.1, loop (count s.1)) }
+
 def containerCodecs : List Codec :=
-  [iNetX, IENA, IENAM, IENAQ, IENAD, IENAN, iNET, NPD, PABlock, PAPacket, PcapRecord, ARINC, MIL1553, UART, PCM,
-   PCMFrame, TDF1, TDF2, NAL, MPEGTS, Golay]
+  [iNetX, IENA,
+   withCursor IENAM (fun s => Acra.Model.IENA.MState.len s) true,
+   withCursor IENAQ (fun s => Acra.Model.IENA.QState.len s) true,
+   withCursor IENAD (fun s => Acra.Model.IENA.DState.len s) false,
+   withCursor IENAN (fun s => Acra.Model.IENA.NState.len s) false,
+   iNET,
+   withCursor NPD (fun s => Acra.Model.NPD.len s) false,
+   PABlock,
+   withCursor PAPacket (fun s => Acra.Model.ParserAligned.Packet.len s) false,
+   PcapRecord,
+   withCursor ARINC (fun s => Acra.Model.Ch11Pay.ARINC.Packet.len s) false,
+   withCursor MIL1553 (fun s => Acra.Model.Ch11Pay.MIL1553.Packet.len s) true,
+   withCursor UART (fun s => Acra.Model.Ch11Pay.UART.Packet.len s) true,
+   withCursor PCM (fun s => (s : Acra.Model.Ch11Pay.PCM.Packet).minor_frames.length) false,
+   PCMFrame, TDF1, TDF2, NAL,
+   withCursor MPEGTS (fun s => Acra.Model.MPEGTS.TS.len s) true,
+   Golay]
 
 open Acra.Model.Helpers in
 def containerFuncs : List Func := [
